@@ -41,7 +41,8 @@ CLAIM = dict(
           "(NDEBUG; asserts + ASan/UBSan), comparing shape and every element."),
     ref="5.4",
     technique="Coq proof (induction on shape lists) + differential correspondence with the extracted model", extra="")
-RULE = ("per routine: small-scope box (source dim 1..3, extents 1..3; thorough dim 1..4, extents 1..4) crossed with the "
+RULE = ("per routine: small-scope box (source dim 1..3, extents 1..3; thorough dim 1..4, extents 1..4; plus a high_dim stream of "
+        "dimension 6..7, extents 1..2, for roll / repeat / tile) crossed with the "
         "argument grid of the property (reps/repeats 1..3, shifts in [-2n-1,2n+1], pad widths 0..2 per side, index lists "
         "with repeated and negative entries, every axis incl. negative and None), sampled with a seeded rng where the box "
         "is larger than the per-routine budget; view level on run-time shaped operands with the argument passed as "
@@ -623,6 +624,16 @@ def gen_cases(rng, tier):
         pq = rng.choice([(3, 4), (-5, 4), (1, 2), (-3, 2)]); cnt = rng.randint(20, 120)
         add("large_extents", "arange I:%d I:%d I:%d I:%d" % (a_, a_ + (pq[0] * cnt) // pq[1] + (1 if pq[0] > 0 else -1), pq[0], pq[1]), "c04b")
         add("large_extents", "linspace I:%d I:%d I:%d I:%d" % (rng.randint(-20, 20), rng.randint(-20, 60), rng.choice([17, 33, 64, 97, rng.randint(10, 100)]), rng.randint(0, 1)), "c04b")
+    # ================= high dimensions (6..7, extents 1..2): the theorems quantify over every dimension; this ties the model to
+    # the code above the small-scope box too (fixed-size scratch arrays, unrolled arms)
+    for _ in range(60 if q else 600):
+        d = rng.randint(6, 7)
+        s = tuple(rng.choice([1, 2, 2]) for _ in range(d))
+        a = rng.randint(-d, d - 1)
+        add("high_dim", "roll S:vec %s I:%d %s" % (A(s), rng.randint(-3, 3), AX(rng.choice([None, a]))))
+        add("high_dim", "repeat S:vec %s I:%d %s" % (A(s), rng.randint(1, 2), AX(rng.choice([None, a]))))
+        r = [1] * d; r[rng.randrange(d)] = 2
+        add("high_dim", "tile S:vec %s %s" % (A(s), L(r)))
     # ================= argument forms (generated TU, harness/gen_c04.py): the Model ignores the form
     for line, _eid in gen_c04.lines(rng): add("argument_forms", line, "c04c")
     return out
